@@ -87,7 +87,9 @@ def hh(s):
 
 
 def usable(emb, p):
-    return not (emb == "evalenv" and "`" in p) and not (emb == "runtest" and "../lib/" in p)      # the test driver would run the shared modules as tests
+    # the test driver would run the shared modules as tests; and its files share the ONE standard input of the process (what an earlier
+    # file consumed is gone for the next one by the nature of the driver, not by interpreter state)
+    return not (emb == "evalenv" and "`" in p) and not (emb == "runtest" and ("../lib/" in p or "<>" in p))
 
 
 def run():
